@@ -9,6 +9,11 @@
 // "ref" side   : in-process server without caches over the store s ∪ c (one store per contextual set), the
 //                request carries nothing.
 // Both sides are the real server code (default engine; again with the weighted-graph engine enabled).
+// A "batm" step is a BatchCheck whose items carry DIFFERENT contextual sets (cA, cB or nothing, chosen per
+// item); its reference answer is assembled from BatchChecks without contextual tuples against the store that
+// holds the item's set.  Some histories get a crafted pair of contextual tuples on one object#relation — a
+// typed wildcard and a user whose id sorts before '*' — and a Check for a third user of that type.
+//
 // Output per step: <split answer, caches on>/<split answer, no caches>/<reference answer>, "~" appended when re-asking the same question on the
 // same side gave another answer (non-determinism of the engine itself: C02, not C04).
 package main
@@ -35,8 +40,9 @@ import (
 )
 
 type step struct {
-	kind string // chk | bat | lo | lu | exp
-	sel  string // a | b | n
+	kind string // chk | bat | batm | lo | lu | exp
+	sel  string // a | b | n   (batm: m = per item, see sels)
+	sels []string // batm: the contextual set of each item
 	reqs []fga.Req
 	typ  string // lo: object type; lu: user filter type
 	frel string // lu: user filter relation
@@ -76,6 +82,11 @@ func encode(m *fga.Model, ts *typesystem.TypeSystem, base, cA, cB []fga.Tuple, s
 			fmt.Fprintf(&sb, " %d", len(s.reqs))
 			for _, r := range s.reqs {
 				fmt.Fprintf(&sb, " %s %s", fga.EncodeAux(fga.Aux(m, ts, r.User)), r.Encode())
+			}
+		case "batm":
+			fmt.Fprintf(&sb, " %d", len(s.reqs))
+			for i, r := range s.reqs {
+				fmt.Fprintf(&sb, " %s %s %s", s.sels[i], fga.EncodeAux(fga.Aux(m, ts, r.User)), r.Encode())
 			}
 		case "lo":
 			fmt.Fprintf(&sb, " %s %s", s.typ, s.reqs[0].Encode())
@@ -151,6 +162,54 @@ func gen(r *hx.Rand, n int, tier string, emit func(string), st *hx.Stats) {
 				base = append(base, t)
 			}
 		}
+		// crafted: on one object#relation that admits `T` and `T:*` (both unconditioned), cA gets the typed wildcard
+		// AND a user whose id sorts before '*' (or after: control); a third user of that type is checked below
+		var crafted []step
+		if c.Chance(1, 4) {
+			type cand struct {
+				typ string
+				rd  *fga.RelDef
+				ut  string
+			}
+			var cands []cand
+			for _, t := range m.Types {
+				for _, rd := range t.Rels {
+					for _, x := range rd.Restrs {
+						if !x.Wild || x.Cond != "" {
+							continue
+						}
+						for _, y := range rd.Restrs {
+							if y.Typ == x.Typ && !y.Wild && y.Rel == "" && y.Cond == "" {
+								cands = append(cands, cand{t.Name, rd, x.Typ})
+							}
+						}
+					}
+				}
+			}
+			if len(cands) > 0 {
+				cd := hx.Pick(c, cands)
+				obj := fga.Ent(m, cd.typ, hx.Pick(c, []string{"a", "b", "c"}))
+				odd := hx.Pick(c, []string{"$s", "!s", "(s", "%s", "+s", "s"})
+				have := map[string]bool{}
+				for _, t := range all {
+					have[t.String()] = true
+				}
+				ok := true
+				pair := []fga.Tuple{{Obj: obj, Rel: cd.rd.Name, User: cd.ut + ":*"}, {Obj: obj, Rel: cd.rd.Name, User: cd.ut + ":" + odd}}
+				for _, t := range pair {
+					if have[t.String()] || validation.ValidateTupleForWrite(ts, t.Key()) != nil {
+						ok = false
+					}
+				}
+				if ok {
+					cA = append(cA, pair...)
+					rq := fga.Req{Obj: obj, Rel: cd.rd.Name, User: cd.ut + ":" + hx.Pick(c, []string{"x", "z", "third"}), Ctx: fga.GenReqCtx(c, m)}
+					crafted = append(crafted, step{kind: "chk", sel: "a", reqs: []fga.Req{rq}},
+						step{kind: "batm", sel: "m", sels: []string{"b", "a", "n"}, reqs: []fga.Req{rq, rq, rq}})
+					st.Inc("crafted:wildcard-and-low-id-in-one-bucket")
+				}
+			}
+		}
 		visible := append(append(append([]fga.Tuple{}, base...), cA...), cB...)
 		k := 5 + c.Intn(10)
 		var steps []step
@@ -175,6 +234,24 @@ func gen(r *hx.Rand, n int, tier string, emit func(string), st *hx.Stats) {
 					}
 					s.reqs = append(s.reqs, r2)
 				}
+				if c.Chance(1, 2) {
+					// every item with its own contextual set; half of the items probe a contextual tuple of their set
+					s.kind, s.sel = "batm", "m"
+					for q := range s.reqs {
+						sl := hx.Pick(c, []string{"a", "b", "n"})
+						s.sels = append(s.sels, sl)
+						set := cA
+						if sl == "b" {
+							set = cB
+						}
+						if sl != "n" && len(set) > 0 && c.Chance(1, 2) {
+							t := hx.Pick(c, set)
+							if !strings.HasSuffix(t.User, ":*") {
+								s.reqs[q] = fga.Req{Obj: t.Obj, Rel: t.Rel, User: t.User, Ctx: s.reqs[q].Ctx}
+							}
+						}
+					}
+				}
 			case x < 7:
 				s.kind = "lo"
 				s.typ = fga.TypeOf(rq.Obj)
@@ -195,6 +272,12 @@ func gen(r *hx.Rand, n int, tier string, emit func(string), st *hx.Stats) {
 			st.Inc("step:" + s.kind + ":" + s.sel)
 			steps = append(steps, s)
 		}
+		for _, cs := range crafted {
+			at := c.Intn(len(steps) + 1)
+			steps = append(steps[:at], append([]step{cs}, steps[at:]...)...)
+			st.Inc("step:" + cs.kind + ":" + cs.sel)
+		}
+		k = len(steps)
 		emit(encode(m, ts, base, cA, cB, steps))
 		st.Inc("histories")
 		st.Add("requests", 2*k)
@@ -356,25 +439,7 @@ func ask(srv *server.Server, storeID, modelID string, s step, ctxT []fga.Tuple) 
 		if err != nil {
 			return errClass(err)
 		}
-		var parts []string
-		for i := range s.reqs {
-			r := resp.GetResult()[fmt.Sprintf("c%d", i)]
-			switch {
-			case r == nil:
-				parts = append(parts, "missing")
-			case r.GetError() != nil:
-				if ie := r.GetError().GetInputError(); ie != 0 {
-					parts = append(parts, "E:"+ie.String())
-				} else {
-					parts = append(parts, "E:"+r.GetError().GetInternalError().String())
-				}
-			case r.GetAllowed():
-				parts = append(parts, "T")
-			default:
-				parts = append(parts, "F")
-			}
-		}
-		return strings.Join(parts, ",")
+		return strings.Join(batchAnswers(resp, len(s.reqs)), ",")
 	case "lo":
 		resp, err := srv.ListObjects(ctx, &openfgav1.ListObjectsRequest{StoreId: storeID, AuthorizationModelId: modelID,
 			Type: s.typ, Relation: rq.Rel, User: rq.User, ContextualTuples: ct, Context: fga.CtxStruct(rq.Ctx)})
@@ -427,6 +492,81 @@ func ask(srv *server.Server, storeID, modelID string, s step, ctxT []fga.Tuple) 
 	return "?"
 }
 
+func batchAnswers(resp *openfgav1.BatchCheckResponse, n int) []string {
+	var parts []string
+	for i := 0; i < n; i++ {
+		r := resp.GetResult()[fmt.Sprintf("c%d", i)]
+		switch {
+		case r == nil:
+			parts = append(parts, "missing")
+		case r.GetError() != nil:
+			if ie := r.GetError().GetInputError(); ie != 0 {
+				parts = append(parts, "E:"+ie.String())
+			} else {
+				parts = append(parts, "E:"+r.GetError().GetInternalError().String())
+			}
+		case r.GetAllowed():
+			parts = append(parts, "T")
+		default:
+			parts = append(parts, "F")
+		}
+	}
+	return parts
+}
+
+// askMixed sends a "batm" step: ONE BatchCheck whose item i carries the contextual set ctxOf[s.sels[i]].
+func askMixed(srv *server.Server, storeID, modelID string, s step, ctxOf map[string][]fga.Tuple) string {
+	ctx, cancel := context.WithTimeout(context.Background(), 30*time.Second)
+	defer cancel()
+	var checks []*openfgav1.BatchCheckItem
+	for i, r := range s.reqs {
+		var ct *openfgav1.ContextualTupleKeys
+		if set := ctxOf[s.sels[i]]; len(set) > 0 {
+			ct = &openfgav1.ContextualTupleKeys{TupleKeys: fga.Keys(set)}
+		}
+		checks = append(checks, &openfgav1.BatchCheckItem{
+			TupleKey:         &openfgav1.CheckRequestTupleKey{Object: r.Obj, Relation: r.Rel, User: r.User},
+			ContextualTuples: ct, Context: fga.CtxStruct(r.Ctx), CorrelationId: fmt.Sprintf("c%d", i)})
+	}
+	resp, err := srv.BatchCheck(ctx, &openfgav1.BatchCheckRequest{StoreId: storeID, AuthorizationModelId: modelID, Checks: checks})
+	if err != nil {
+		return errClass(err)
+	}
+	return strings.Join(batchAnswers(resp, len(s.reqs)), ",")
+}
+
+// askMixedRef is the reference answer of a "batm" step: for every contextual set one BatchCheck WITHOUT contextual
+// tuples, holding the items of that set, against the store that also holds the set.
+func askMixedRef(srv *server.Server, refStore map[string][2]string, s step) string {
+	ctx, cancel := context.WithTimeout(context.Background(), 30*time.Second)
+	defer cancel()
+	out := make([]string, len(s.reqs))
+	for _, sel := range []string{"a", "b", "n"} {
+		var checks []*openfgav1.BatchCheckItem
+		var idx []int
+		for i, r := range s.reqs {
+			if s.sels[i] != sel {
+				continue
+			}
+			idx = append(idx, i)
+			checks = append(checks, &openfgav1.BatchCheckItem{
+				TupleKey: &openfgav1.CheckRequestTupleKey{Object: r.Obj, Relation: r.Rel, User: r.User},
+				Context:  fga.CtxStruct(r.Ctx), CorrelationId: fmt.Sprintf("c%d", len(idx)-1)})
+		}
+		if len(checks) == 0 {
+			continue
+		}
+		resp, err := srv.BatchCheck(ctx, &openfgav1.BatchCheckRequest{StoreId: refStore[sel][0], AuthorizationModelId: refStore[sel][1], Checks: checks})
+		if err != nil {
+			return errClass(err)
+		}
+		for j, a := range batchAnswers(resp, len(idx)) {
+			out[idx[j]] = a
+		}
+	}
+	return strings.Join(out, ",")
+}
+
 func exec(line string, st *hx.Stats) string {
 	t := fga.NewToks(line)
 	t.Expect("c04")
@@ -447,6 +587,13 @@ func exec(line string, st *hx.Stats) string {
 		case "bat":
 			nb := t.Int()
 			for q := 0; q < nb; q++ {
+				fga.SkipAux(t)
+				s.reqs = append(s.reqs, fga.DecodeReq(t))
+			}
+		case "batm":
+			nb := t.Int()
+			for q := 0; q < nb; q++ {
+				s.sels = append(s.sels, t.Next())
 				fga.SkipAux(t)
 				s.reqs = append(s.reqs, fga.DecodeReq(t))
 			}
@@ -500,18 +647,30 @@ func exec(line string, st *hx.Stats) string {
 		var parts []string
 		for pass := 0; pass < 2; pass++ {
 			for _, s := range steps {
-				a := ask(rg.cached, splitStore, splitModel, s, ctxOf[s.sel]) // contextual tuples, all caches on
+				askSplit := func(srv *server.Server) string {
+					if s.kind == "batm" {
+						return askMixed(srv, splitStore, splitModel, s, ctxOf)
+					}
+					return ask(srv, splitStore, splitModel, s, ctxOf[s.sel])
+				}
+				askRef := func() string {
+					if s.kind == "batm" {
+						return askMixedRef(rg.plain, refStore, s)
+					}
+					return ask(rg.plain, refStore[s.sel][0], refStore[s.sel][1], s, nil)
+				}
+				a := askSplit(rg.cached) // contextual tuples, all caches on
 				// a request that was cancelled gave no answer (seen transiently with the iterator cache + shared
 				// iterators, also for requests without contextual tuples): ask again, report "CX" if it stays so
 				for rep := 0; rep < 3 && strings.Contains(a, "E:cancelled"); rep++ {
 					st.Inc("cached-side-cancelled")
-					a = ask(rg.cached, splitStore, splitModel, s, ctxOf[s.sel])
+					a = askSplit(rg.cached)
 				}
 				if strings.Contains(a, "E:cancelled") {
 					a = "CX"
 				}
-				p := ask(rg.plain, splitStore, splitModel, s, ctxOf[s.sel])       // contextual tuples, no caches
-				b := ask(rg.plain, refStore[s.sel][0], refStore[s.sel][1], s, nil) // the same tuples stored
+				p := askSplit(rg.plain) // contextual tuples, no caches
+				b := askRef()           // the same tuples stored
 				if a == "DL" || b == "DL" || p == "DL" {
 					a, b, p = "DL", "DL", "DL"
 					st.Inc("listusers-deadline")
@@ -524,10 +683,28 @@ func exec(line string, st *hx.Stats) string {
 				if a != b || p != b {
 					st.Inc("mismatch:" + s.kind)
 					// is any side unstable by itself?
-					for rep := 0; rep < 6 && mark == ""; rep++ {
-						if ask(rg.cached, splitStore, splitModel, s, ctxOf[s.sel]) != a || ask(rg.plain, splitStore, splitModel, s, ctxOf[s.sel]) != p ||
-							ask(rg.plain, refStore[s.sel][0], refStore[s.sel][1], s, nil) != b {
-							mark = "~"
+					if s.kind == "batm" {
+						// only non-determinism of Check ITSELF excuses a difference: every item alone (own contextual
+						// set, no caches) and the reference are re-asked; a mixed batch whose answers vary from run to run
+						// while its items are stable one by one is exactly what must not happen
+						singles := func() string {
+							var out []string
+							for i := range s.reqs {
+								out = append(out, ask(rg.plain, splitStore, splitModel, step{kind: "chk", sel: s.sels[i], reqs: s.reqs[i : i+1]}, ctxOf[s.sels[i]]))
+							}
+							return strings.Join(out, ",")
+						}
+						s0 := singles()
+						for rep := 0; rep < 6 && mark == ""; rep++ {
+							if singles() != s0 || askRef() != b {
+								mark = "~"
+							}
+						}
+					} else {
+						for rep := 0; rep < 6 && mark == ""; rep++ {
+							if askSplit(rg.cached) != a || askSplit(rg.plain) != p || askRef() != b {
+								mark = "~"
+							}
 						}
 					}
 				}
